@@ -127,6 +127,14 @@ func listFault(kind string) (runtime.Object, error) {
 		return &metav1.Status{Status: "Failure"}, nil
 	case "nonobjects":
 		return &metav1.List{ListMeta: metav1.ListMeta{ResourceVersion: "1"}, Items: []runtime.RawExtension{{Object: &runtime.Unknown{}}}}, nil
+	case "nilitem":
+		// a generic list with an empty item (neither Object nor Raw) next to a good one
+		return &metav1.List{ListMeta: metav1.ListMeta{ResourceVersion: "1"}, Items: []runtime.RawExtension{
+			{Object: kv.Obj{Kind: "pod", NS: "a", Name: "x", RV: "1"}.Build().(runtime.Object)}, {}}}, nil
+	case "rawitem":
+		// … and with an undecoded one
+		return &metav1.List{ListMeta: metav1.ListMeta{ResourceVersion: "1"}, Items: []runtime.RawExtension{
+			{Object: kv.Obj{Kind: "pod", NS: "a", Name: "x", RV: "1"}.Build().(runtime.Object)}, {Raw: []byte(`{"kind":"Foo"}`)}}}, nil
 	}
 	panic("listFault " + kind)
 }
@@ -144,7 +152,13 @@ func errClass(err error) string {
 	case strings.Contains(err.Error(), "context canceled"):
 		return "canceled"
 	}
-	return "other:" + err.Error()
+	// one atom: the driver reads the class, the message is for the reader of a replay
+	return "other:" + strings.Map(func(r rune) rune {
+		if r == ' ' || r == '(' || r == ')' || r == '"' || r == '\n' || r == '\t' {
+			return '_'
+		}
+		return r
+	}, err.Error())
 }
 
 func (w *ctrlWorld) observe() {
@@ -278,7 +292,7 @@ func runCtrlScenario(t *testing.T, tr *tracer, idx int, seed uint64, mode string
 		}
 		if mode == "c14" || (mode == "" && r.Chance(1, 6)) {
 			w.listFaultAt = 1 + r.Intn(4)
-			w.listFaultKind = kv.Pick(r, []string{"error", "errorlist", "canceled", "nil", "nonlist", "status", "nonobjects"})
+			w.listFaultKind = kv.Pick(r, []string{"error", "errorlist", "canceled", "nil", "nonlist", "status", "nonobjects", "nilitem", "rawitem"})
 		}
 		if mode == "c14" && w.listFaultAt >= 2 && r.Chance(1, 2) {
 			// the controller is busy (a filter that takes 2.5 periods during one sync) while the failing list and
@@ -290,6 +304,10 @@ func runCtrlScenario(t *testing.T, tr *tracer, idx int, seed uint64, mode string
 			w.keys = [][2]string{{"a", "x"}, {"a", "y"}, {"b", "x"}, {"b", "y"}, {"a", "z"}, {"b", "z"}, {"a", "w"}, {"b", "w"}, {"c", "x"}, {"c", "y"}, {"c", "z"}, {"c", "w"}}
 		}
 		w.srv.RVStep = 1 + r.Intn(3)
+		if r.Chance(1, 8) {
+			// a long-lived cluster: resource versions beyond 32 bits
+			w.srv.StartAt(1<<31 + r.Intn(1000))
+		}
 		w.srv.StaleList = r.Chance(1, 3) // a slow or gated list answers with what the server held when it was asked
 		emptyRV := mode == "" && !w.slowSync && w.listFaultAt == 0 && r.Chance(1, 10)
 		if mode == "" && !w.slowSync && !emptyRV && w.listFaultAt == 0 && r.Chance(1, 9) {
@@ -378,8 +396,32 @@ func runCtrlScenario(t *testing.T, tr *tracer, idx int, seed uint64, mode string
 			}
 			defer func() { kv.FNHook = nil }()
 		}
-		b := kcache.NewBuilder().Context(w.ctx).Log(&kv.Log{Hook: w.hook}).Filter(rootF.Build()).Client(w.srv)
-		b.Lister().RefreshPeriod(w.period)
+		// the builder's options in any order (a caller may configure the lister before it names the client, hold on
+		// to the lister builder, or give lister and watcher their clients separately)
+		b := kcache.NewBuilder()
+		lb := b.Lister()
+		setters := []func(){
+			func() { b.Context(w.ctx) },
+			func() { b.Log(&kv.Log{Hook: w.hook}) },
+			func() { b.Filter(rootF.Build()) },
+			func() { b.Client(w.srv) },
+			func() { b.Lister().RefreshPeriod(w.period) },
+		}
+		switch r.Intn(4) {
+		case 0:
+			setters[4] = func() { lb.RefreshPeriod(w.period) }
+		case 1:
+			setters[3] = func() { b.Lister().Client(w.srv); b.Watcher().Client(w.srv) }
+		}
+		if r.Chance(1, 2) {
+			for i := len(setters) - 1; i > 0; i-- {
+				j := r.Intn(i + 1)
+				setters[i], setters[j] = setters[j], setters[i]
+			}
+		}
+		for _, f := range setters {
+			f()
+		}
 		root, err := b.Create()
 		if err != nil {
 			t.Fatal(err)
